@@ -25,3 +25,12 @@ Fixpoint noemsg_scan (P : fstep -> bool) (lim : option Z) (tr : list fstep) : bo
 
 Definition c06_emitted_live_ok_g (cfg : vconfig) (tr : list fstep) : bool :=
   noemsg_scan (c06_emitted_live_ok cfg) None tr.
+
+(* "never retransmits an acknowledged segment", claimed when the table after the poll is within the
+   wrap tolerance too (the sequence number of a datagram is resolved against the table BEFORE the poll:
+   with more than 64 k segments in the table the number could be one of the next lap) *)
+Definition c06_no_resend_acked_t (cfg : vconfig) (st : fstep) : bool :=
+  if tol_ok (fs_post st) then c06_no_resend_acked cfg st else true.
+
+Definition c06_no_resend_acked_g (cfg : vconfig) (tr : list fstep) : bool :=
+  noemsg_scan (c06_no_resend_acked_t cfg) None tr.
